@@ -6,26 +6,30 @@ TRUSTED_COMMON = [
     'normalisation rules N1-N18 of DESIGN §3 (syntactic, applied to lifted items only, logged per function)',
 ]
 TRUSTED_BYTES = 'assumed contracts on bytes::BytesMut (len,is_empty,zeroed,with_capacity,clear,split_to,split_off,unsplit,resize,truncate,advance,put_u8,put_slice,Deref,DerefMut, len<=isize::MAX) in contracts/prelude/vx_base.rs'
-TRUSTED_NOM = 'nom parser (parser.rs) is NOT verified: ParsedComponent::parse / greeting carry the ASSUMED contract == spec_component / spec_greeting; bounded conformance check stands in (bounded_standins)'
+TRUSTED_NOM = ('nom is replaced by the stand-in crate contracts/prelude/vx_nom.rs for the verification runs: ASSUMED relational contracts of the combinators parser.rs uses (tag, take, take_until [one-byte tag], take_while, take_while1, char, newline, digit1, is_alphabetic, map_res, opt, cut, delimited, separated_pair, terminated, tuple [arity 3]), written from nom 7.1.3 bytes::streaming / character::streaming / combinator / sequence; '
+    'every sub-parser of parser.rs (greeting, number, error, error_code_and_index, error_current_command, key_value_field, field_value, binary_prefix, binary_field, into_owned_error) is PROVED against the wire grammar on top of them; '
+    'NOT verified: ParsedComponent::parse (the closure of its last `map` captures &mut field_cache, which Verus rejects) keeps the ASSUMED contract == spec_component, i.e. the alt-glue of the five proved alternatives and the result conversions; the bounded conformance run (real nom against the reference parser) stands in for the glue and for the combinator contracts (bounded_standins); '
+    'ASSUMED about std: core::str::from_utf8 succeeds exactly on vstd::utf8::valid_utf8 bytes; u64/usize::from_str of a non-empty ASCII digit string = its decimal value, error iff above MAX (axiom_parse_*_digits in vx_base.rs)')
 TRUSTED_STD = 'assumed contracts on std (mem::replace, io::Read::read returns n<=buf.len(), io::Error::new wrapper, str/String/Vec specs shipped with vstd)'
 TRUSTED_TOKIO = 'tokio stand-in crate (contracts/prelude/vx_tokio.rs): read_buf appends what it returns (0 = EOF), write_all, unbounded mpsc FIFO, oneshot pairing, timeout, select! = arbitrary choice (N3)'
 TRUSTED_DERIVE = 'compiler-derived PartialEq on ResponseState given its structural meaning (only comparison with the field-less Initial variant is interpreted)'
 
 PROPS = {
     'C03': {
-        'units': ['P'], 'spec_tags': ['wire', 'fold'],
+        'units': ['P'], 'spec_tags': ['wire', 'fold', 'sub'],
         'trusted': [TRUSTED_BYTES, TRUSTED_NOM, TRUSTED_STD, TRUSTED_DERIVE,
                     'ResponseFieldCache::insert (ahash HashSet) unverified: returns an Arc<str> equal to its argument (part of the parser contract)'],
         'bounded': ['conformance', 'search'],
     },
 }
 for _k in ('C02', 'C09', 'C10', 'C18'):
-    PROPS[_k] = {'units': ['P'], 'spec_tags': ['wire', 'fold'],
+    PROPS[_k] = {'units': ['P'], 'spec_tags': ['wire', 'fold', 'sub'],
                  'trusted': [TRUSTED_BYTES, TRUSTED_NOM, TRUSTED_STD, TRUSTED_DERIVE, TRUSTED_TOKIO], 'bounded': ['conformance', 'search']}
 
 # which proved lemmas of vx_spec belong to which property (by module)
 SPEC_MODULE_PROPS = {
     'wire': ['C02', 'C03', 'C09', 'C10', 'C18'],
+    'sub': ['C02', 'C03', 'C09', 'C18'],
     'fold': ['C02', 'C03', 'C09', 'C10'],
     'tok': ['C06', 'C07', 'C11', 'C15'],
     'filt': ['C11'],
@@ -53,7 +57,7 @@ for _k in ('C01', 'C04', 'C05', 'C08'):
     PROPS[_k] = {'units': ['C'], 'spec_tags': ['sess'], 'trusted': [TRUSTED_TOKIO, TRUSTED_SESS, TRUSTED_ASYNC, TRUSTED_CHAN, TRUSTED_BYTES, TRUSTED_STD], 'bounded': ['clientsim']}
 
 PROPS['C18']['units'] = ['P', 'C']
-PROPS['C18']['spec_tags'] = ['wire', 'fold', 'sess']
+PROPS['C18']['spec_tags'] = ['wire', 'fold', 'sub', 'sess']
 PROPS['C18']['bounded'] = list(PROPS['C18'].get('bounded', [])) + ['clientsim']
 PROPS['C18']['trusted'] = PROPS['C18']['trusted'] + [TRUSTED_ASYNC, 'the password is one argument the command builder accepts (no LF / NUL after rendering): precondition of do_connect, otherwise Command::argument panics (observation, DESIGN §10)']
 
